@@ -235,7 +235,7 @@ def run(chk):
         chk.count_case(c.key(), nontrivial=accepted)
         if m and m["check"] != accepted:
             corr_bad.append({"case": c01.describe(c), "tie": "checker verdict", "real": r["check"][:2] or "accepted", "model": "accepts" if m["check"] else "rejects"})
-            continue
+            # explained on the property itself below: a function the real checker accepts must build
         if not accepted:
             continue
         # ---- the property: accepted => builds
@@ -295,7 +295,8 @@ def run(chk):
                     culprits = [(n, i) for n, i in members if n in bad] or members[:3]
                     for n, i in culprits[:10]:
                         fails.append({"case": c01.describe(cases[i], n), "accepted_by": "real checker", "stage": "rustc",
-                                      "classes": classes_of(model[i]) if model else [], "actual": msg[-1500:],
+                                      "classes": classes_of(model[i]) if model else [],
+                                      "actual": "\n".join(b for b in re.split(r"\n(?=error|warning)", msg) if b.startswith("error"))[:2500],
                                       "why": "the checker accepts this function, code generation succeeds, rustc rejects the generated Rust"})
                 else:
                     chk.coverage["functions_compiled_by_rustc"] = chk.coverage.get("functions_compiled_by_rustc", 0) + len(members)
